@@ -190,7 +190,7 @@ class Session:
               '%d paths, %d solver queries (%.1fs), wall %.1fs'
               % (self.pid, self.tier, nobs, ndis, len(known_hit), len(new_viol), n_incon, self.stats['paths'],
                  self.stats['solver_checks'], self.stats['solver_s'], time.time() - self.t0))
-        if status == 2:
+        if n_incon:
             for r in self.inconclusive_reasons[:10]:
                 print('INCONCLUSIVE: ' + r)
         sys.stdout.flush()
